@@ -19,7 +19,10 @@ def sessions_cases(ctx, n_cases, per=4):
                      "extents": {"m": 4}, "zshape": 1})
     cases = []
     for _ in range(n_cases):
-        ks = rng.sample(pool, 2)
+        ks = [dict(k) for k in rng.sample(pool, 2)]
+        for k in ks:
+            if not k["expr"].get("plus") and rng.random() < 0.25:
+                k["vmap"] = "absorb"          # float operands whose sums absorb the smaller addend: every executed add still counts
         seq = []
         for j in range(per + rng.randint(0, 2)):
             kidx = rng.choice([0, 0, 1])
